@@ -67,12 +67,21 @@ def cases(tier, seed):
     return out
 
 
-SINGULAR_TABLES = ('dup(x,x,y)', 'affine(x,3x+1)', 'dup-after-unrelated(a,b,c,b)', 'anti(x,-x,y)', 'two-rows', 'three-rows')
+def _almost_affine():
+    n = 60
+    P = A.lattice(n + 1, 3)[1:]
+    Z = stats.norm.ppf(P)
+    x = Z[:, 0]
+    return pd.DataFrame({'x': x, 'ax': 3 * x + 1 + 1e-6 * Z[:, 1], 'y': 0.4 * x + Z[:, 2]})
+
+
+SINGULAR_TABLES = ('dup(x,x,y)', 'affine(x,3x+1)', 'dup-after-unrelated(a,b,c,b)', 'anti(x,-x,y)', 'two-rows', 'three-rows',
+                   'almost-affine(x,3x+1+1e-6*noise,y)')
 
 
 def _singular(r, case):
     (_, name), cfg = case[0], case[1]
-    df = tables.structural_tables()[name]
+    df = _almost_affine() if name.startswith('almost-affine') else tables.structural_tables()[name]
     cols = list(df.columns)
     tag = f'structural table {name}, config {cfg}'
     r.tr()
@@ -90,12 +99,27 @@ def _singular(r, case):
     try:
         lp_ref = mvn.logpdf(S, C)
     except np.linalg.LinAlgError:
+        lp_ref = None
+    try:
+        with np.errstate(all='ignore'):
+            p = np.asarray(gm.probability_density(pd.DataFrame(Q, columns=cols)), float)
+    except Exception as e:
+        r.violation(f'C13:singular:pdf-raises:{type(e).__name__}', f'{tag}: probability_density raised {type(e).__name__}: {e}', case=case)
+        return r
+    try:
+        with np.errstate(all='ignore'):
+            lp = np.asarray(gm.log_probability_density(pd.DataFrame(Q, columns=cols)), float)
+    except Exception as e:
+        r.violation(f'C13:singular:logpdf-raises:{type(e).__name__}', f'{tag} (cond(correlation) = {np.linalg.cond(C):.2e}): '
+                    f'probability_density is defined but log_probability_density raised {type(e).__name__}: {e}', case=case)
+        return r
+    if lp_ref is None or np.linalg.cond(C) > 1e9:
+        pos = p > 0
+        if p.shape != lp.shape or not np.allclose(np.log(p[pos]), lp[pos], rtol=1e-9, atol=1e-9):
+            r.violation('C13:logpdf', f'{tag}: log_probability_density != log(probability_density)', case=case)
         r.outcome('singular:reference-not-defined')
         r.hit('singular')
         return r
-    with np.errstate(all='ignore'):
-        lp = np.asarray(gm.log_probability_density(pd.DataFrame(Q, columns=cols)), float)
-        p = np.asarray(gm.probability_density(pd.DataFrame(Q, columns=cols)), float)
     r.tr(2)
     r.ev(2 * len(Q))
     # cond(C) ~ 1e7: the quadratic form amplifies the last bits of the scores, hence 1e-5 (a second regularisation moves the
@@ -292,6 +316,16 @@ def run_case(case):
                                 f'overwrote the {cname} that had been passed to fit', case=case)
             except Exception as e:
                 r.violation(f'C13:raises-after-buffer-overwrite:{type(e).__name__}', f'{tag}: {type(e).__name__}: {e}', case=case)
+
+    # the empty batch: zero rows in, zero values out
+    for name, obj in (('DataFrame', base_df.iloc[:0].copy()), ('ndarray', Q[:0].copy())):
+        try:
+            got = pdf_of(obj)
+            if got.shape != (0,):
+                r.violation('C13:batch-dependence:empty-batch', f'{tag}: pdf of an empty {name} has shape {got.shape}', case=case)
+        except Exception as e:
+            r.violation(f'C13:batch-dependence:empty-batch:raises', f'{tag}: pdf of an empty {name} raised {type(e).__name__}: {e}',
+                        case=case)
 
     # long batches whose length is not a multiple of any plausible block size (rows must not be processed in chunks that
     # drop or misplace a tail)
